@@ -32,13 +32,13 @@ func VerifC10SiteProvocations() (map[string]func() string, error) {
 	// a split map of arrays of different lengths, indexed past the end of
 	// each of them: one error per entry, each naming the entry's length
 	result["invertSplit"] = func() string {
-		done, e, err := invertSplit(verifC10ArraysSplit(keys, call, nil), arrayIndex(7))
+		done, e, err := invertSplit(verifC10ArraysSplit(keys, call, nil, 0), arrayIndex(7))
 		return fmt.Sprint(done) + " / " + verifErrText(err) + " / " + e.GoString()
 	}
 	// a split disable binding some of whose entries are literals split over
 	// the same call which lack the entry's key
 	result["wrapDisabled"] = func() string {
-		e, err := wrapDisabled(verifC10KindsSplit(keys, call, call2, nil), &IntExp{Value: 1}, lookup)
+		e, err := wrapDisabled(verifC10KindsSplit(keys, call, call2, nil, 0), &IntExp{Value: 1}, lookup)
 		return verifErrText(err) + " / " + e.GoString()
 	}
 	// merging, over keys which the literal does not have, a value which
@@ -58,12 +58,12 @@ func VerifC10SiteProvocations() (map[string]func() string, error) {
 	}
 	// inputs whose expression is an array although the parameter is not
 	result["CallGraphStage.unsplit"] = func() string {
-		node := verifC10StageNode(keys, call, lookup, nil)
+		node := verifC10StageNode(keys, call, lookup, nil, 0)
 		err := node.unsplit(lookup)
 		return verifErrText(err)
 	}
 	result["CallGraphPipeline.unsplit"] = func() string {
-		node := &CallGraphPipeline{CallGraphStage: *verifC10StageNode(keys, call, lookup, nil)}
+		node := &CallGraphPipeline{CallGraphStage: *verifC10StageNode(keys, call, lookup, nil, 0)}
 		err := node.unsplit(lookup)
 		return verifErrText(err)
 	}
@@ -72,12 +72,13 @@ func VerifC10SiteProvocations() (map[string]func() string, error) {
 
 // verifC10ArraysSplit is a literal map, split over call, whose value for the
 // i-th key is an array of lens[i] (default i%5) integers.
-func verifC10ArraysSplit(keys []string, call *CallStm, lens []int) *SplitExp {
+func verifC10ArraysSplit(keys []string, call *CallStm, lens []int, base int) *SplitExp {
 	m := &MapExp{Kind: KindMap, Value: make(map[string]Exp, len(keys))}
 	for i, k := range keys {
+		i += base
 		n := i % 5
 		if lens != nil {
-			n = lens[i]
+			n = lens[i-base]
 		}
 		arr := &ArrayExp{Value: make([]Exp, n)}
 		for j := range arr.Value {
@@ -93,12 +94,13 @@ func verifC10ArraysSplit(keys []string, call *CallStm, lens []int) *SplitExp {
 // 0 a literal split over the same call which lacks the key (an error naming
 // the key), 1 false, 2 a reference, 3 true, 4 a split (over call2) of an
 // integer, which cannot disable a call.
-func verifC10KindsSplit(keys []string, call, call2 *CallStm, kinds []int) *SplitExp {
+func verifC10KindsSplit(keys []string, call, call2 *CallStm, kinds []int, base int) *SplitExp {
 	m := &MapExp{Kind: KindMap, Value: make(map[string]Exp, len(keys))}
 	for i, k := range keys {
+		i += base
 		kind := i % 5
 		if kinds != nil {
-			kind = kinds[i]
+			kind = kinds[i-base]
 		}
 		switch kind % 5 {
 		case 0:
@@ -131,7 +133,7 @@ func verifC10Merge(keys []string, call *CallStm, over *MapExp) *MergeExp {
 // verifC10StageNode is a call graph node whose i-th input is well-formed when
 // ok[i] (default: never) and else an array of one reference bound to a
 // parameter of type int.
-func verifC10StageNode(keys []string, call *CallStm, lookup *TypeLookup, ok []bool) *CallGraphStage {
+func verifC10StageNode(keys []string, call *CallStm, lookup *TypeLookup, ok []bool, base int) *CallGraphStage {
 	intT := lookup.Get(TypeId{Tname: KindInt})
 	node := &CallGraphStage{
 		Fqid:    "ID.P.S",
@@ -140,8 +142,9 @@ func verifC10StageNode(keys []string, call *CallStm, lookup *TypeLookup, ok []bo
 		Outputs: &ResolvedBinding{Exp: &NullExp{}, Type: intT},
 	}
 	for i, k := range keys {
+		i += base
 		ref := &RefExp{Kind: KindCall, Id: "ID.P.U", OutputId: fmt.Sprint("o", i)}
-		if ok != nil && ok[i] {
+		if ok != nil && ok[i-base] {
 			node.Inputs[k] = &ResolvedBinding{Exp: ref, Type: intT}
 		} else {
 			node.Inputs[k] = &ResolvedBinding{
@@ -232,12 +235,12 @@ func VerifC10Differential(site string, keys []string, shape []int, arg int) (ent
 	one := func(i int) ([]string, []int) { return keys[i : i+1], shape[i : i+1] }
 	switch site {
 	case "invertSplit":
-		sp := verifC10ArraysSplit(keys, call, shape)
+		sp := verifC10ArraysSplit(keys, call, shape, 0)
 		// Go's own iteration order over the very map the function walks
 		for k := range sp.Value.(*MapExp).Value {
 			i := sort.SearchStrings(keys, k)
 			ks, sh := one(i)
-			s1 := verifC10ArraysSplit(ks, call, sh)
+			s1 := verifC10ArraysSplit(ks, call, sh, i)
 			d, e, err := invertSplit(s1, arrayIndex(arg))
 			entries = append(entries, VerifC10Entry{Key: k, Done: d, Changed: e != Exp(s1),
 				Err: strings.Join(verifC10Errs(err), "\n"), Val: verifC10Vals(e)[k]})
@@ -245,11 +248,11 @@ func VerifC10Differential(site string, keys []string, shape []int, arg int) (ent
 		d, e, err := invertSplit(sp, arrayIndex(arg))
 		whole = VerifC10Accumulated{Done: d, Changed: e != Exp(sp), Errs: verifC10Errs(err), Vals: verifC10Vals(e)}
 	case "wrapDisabled":
-		sp := verifC10KindsSplit(keys, call, call2, shape)
+		sp := verifC10KindsSplit(keys, call, call2, shape, 0)
 		for k := range sp.Value.(*MapExp).Value {
 			i := sort.SearchStrings(keys, k)
 			ks, sh := one(i)
-			s1 := verifC10KindsSplit(ks, call, call2, sh)
+			s1 := verifC10KindsSplit(ks, call, call2, sh, i)
 			e, err := wrapDisabled(s1, &IntExp{Value: int64(arg)}, lookup)
 			entries = append(entries, VerifC10Entry{Key: k, Done: true,
 				Err: strings.Join(verifC10Errs(err), "\n"), Val: verifC10Vals(e)[k]})
@@ -287,8 +290,8 @@ func VerifC10Differential(site string, keys []string, shape []int, arg int) (ent
 			}
 			return r
 		}
-		run := func(ks []string, sh []int) (*CallGraphStage, error) {
-			node := verifC10StageNode(ks, call, lookup, oks(sh))
+		run := func(ks []string, sh []int, base int) (*CallGraphStage, error) {
+			node := verifC10StageNode(ks, call, lookup, oks(sh), base)
 			if site == "CallGraphPipeline.unsplit" {
 				p := &CallGraphPipeline{CallGraphStage: *node}
 				err := p.unsplit(lookup)
@@ -303,15 +306,15 @@ func VerifC10Differential(site string, keys []string, shape []int, arg int) (ent
 			}
 			return r
 		}
-		whole0 := verifC10StageNode(keys, call, lookup, oks(shape))
+		whole0 := verifC10StageNode(keys, call, lookup, oks(shape), 0)
 		for k := range whole0.Inputs {
 			i := sort.SearchStrings(keys, k)
 			ks, sh := one(i)
-			n, err := run(ks, sh)
+			n, err := run(ks, sh, i)
 			entries = append(entries, VerifC10Entry{Key: k, Done: true,
 				Err: strings.Join(verifC10Errs(err), "\n"), Val: vals(n)[k]})
 		}
-		n, err := run(keys, shape)
+		n, err := run(keys, shape, 0)
 		whole = VerifC10Accumulated{Done: true, Errs: verifC10Errs(err), Vals: vals(n)}
 	default:
 		return nil, whole, fmt.Errorf("unknown site %s", site)
